@@ -6,7 +6,8 @@ R2 order      : discriminants are strictly ascending in declaration order (= ser
 R3 optionals  : read off the MIR of the generated struct_len / Serialize / visit_map: exactly the Option-typed members are
                 skipped when None (in *both* struct_len and the entry writer) and default when missing; non-Option members are
                 required unless the table marks them defaulted (`options`).
-R4 defaults   : Options::default() and the serde defaults give rk=false, up=true, uv=false.
+R4 defaults   : for the request Options and the getInfo Options: Default::default() and the value the derived Deserialize uses
+                for a missing member agree with the CTAP defaults (request: rk=false, up=true, uv=false; getInfo: plat=false, rk=false, up=true).
 R5 macro contract : in every generated visit_map each known key goes through the duplicate check before its value is read,
                 unknown keys consume an IgnoredAny, missing required members raise missing_field; integer keys map through
                 from_repr(..).unwrap_or(Unknown).
@@ -212,21 +213,25 @@ def run(chk):
         chk.ob("R5 macro contract", "R5|check_is_already_set|table", len(err_dup) == 1 and len(okrows) == 1 and len(outs) == 2, where(b), "rows: %s" % [(o.vstr(), o.cond_strs()) for o in outs])
 
     # ---------------- R4
-    opts = [a for a in p.adts.values() if a["id"] == "passkey_types::ctap2::make_credential::Options"]
-    if chk.require("R4 defaults", "R4|Options", len(opts) == 1, "passkey_types::ctap2::make_credential", "Options struct not found"):
+    for mod, key, tname in (("make_credential", "option_defaults", "Options"), ("get_info", "get_info_option_defaults", "get_info::Options")):
+        want = tab[key]
+        opts = [a for a in p.adts.values() if a["id"] == "passkey_types::ctap2::%s::Options" % mod]
+        if not chk.require("R4 defaults", "R4|%s" % tname, len(opts) == 1, "passkey_types::ctap2::" + mod, "Options struct not found"):
+            continue
         d = p.method(opts[0]["path"], "default", trait="core::default::Default")
-        if chk.require("R4 defaults", "R4|Options::default", d, opts[0]["path"], "impl Default for Options not found"):
+        if chk.require("R4 defaults", "R4|%s::default" % tname, d, opts[0]["path"], "impl Default for Options not found"):
             chk.touched(d)
             ag = find_aggs(d, "Options")
             vals = {}
             for bb, i, rv in ag:
                 for f, o in zip(rv["fields"], rv["ops"]):
-                    vals[f] = bool(flow.const_bits(o)) if flow.const_bits(o) is not None else None
-            chk.ob("R4 defaults", "R4|Options::default", vals == tab["option_defaults"], where(d), "Options::default() = %s (CTAP: %s)" % (vals, tab["option_defaults"]))
-        # serde defaults used by the derived Deserialize: functions named in #[serde(default = ..)] return constants;
-        # the derive calls Default::default() (bool -> false) or the named fn for a missing member
-        vm = [b for b in p.all_bodies if b.path.endswith("::visit_map") and "for passkey_types::ctap2::make_credential::Options>" in b.path]
-        if chk.require("R4 defaults", "R4|Options|visit_map", len(vm) >= 1, opts[0]["path"], "derived Deserialize of Options not found"):
+                    if f in want:
+                        vals[f] = bool(flow.const_bits(o)) if flow.const_bits(o) is not None else None
+            chk.ob("R4 defaults", "R4|%s::default" % tname, vals == want, where(d), "Options::default() = %s (CTAP: %s)" % (vals, want))
+        # the value the derived Deserialize uses for a missing member: read off the generated visit_map — on the edge where
+        # the member's slot is still None after the key loop
+        vm = [b for b in p.all_bodies if b.path.endswith("::visit_map") and ("for passkey_types::ctap2::%s::Options>" % mod) in b.path]
+        if chk.require("R4 defaults", "R4|%s|visit_map" % tname, len(vm) >= 1, opts[0]["path"], "derived Deserialize of Options not found"):
             b = vm[0]
             chk.touched(b)
             T = flow.Terms(p, b)
@@ -235,18 +240,16 @@ def run(chk):
             S2 = summary.Summaries(p)
             for bb, i, rv in ag:
                 for f, o in zip(rv["fields"], rv["ops"]):
+                    if f not in want:
+                        continue
                     t = flow.simplify_term(T.operand(o, bb, i))
-                    # value when the member is missing: phi of the read value and the default expression
-                    defaults = []
                     if t[0] == "gamma":
-                        # the value taken when the member's slot is still None after the key loop
                         cands = [v for l, v in t[2] if (flow.presence_test(t[1], l) or (None, None))[1] is False]
                     else:
                         cands = t[1] if t[0] == "phi" else [t]
+                    defaults = []
                     for x in cands:
-                        if x[0] == "call" and x[1].endswith("default_true"):
-                            defaults.append(True)
-                        elif x[0] == "call" and names.is_(x[1], "Default::default"):
+                        if x[0] == "call" and names.is_(x[1], "Default::default"):
                             defaults.append(False)
                         elif x == ("const", 0) or x == ("const", 1):
                             defaults.append(bool(x[1]))
@@ -254,11 +257,7 @@ def run(chk):
                             o2 = S2.outcomes(p.bodies[x[1]])
                             defaults += [bool(r.value[1]) for r in o2 if r.value[0] == "const"]
                     got[f] = defaults[0] if len(defaults) == 1 else defaults
-            chk.ob("R4 defaults", "R4|Options|serde-defaults", got == tab["option_defaults"], where(b), "value used for a missing member: %s (CTAP: %s)" % (got, tab["option_defaults"]))
-        dt = [b for b in p.all_bodies if b.path.endswith("make_credential::default_true")]
-        if dt:
-            o2 = S.outcomes(dt[0])
-            chk.ob("R4 defaults", "R4|default_true", len(o2) == 1 and o2[0].value == ("const", 1), where(dt[0]), "default_true() = %s" % [flow.term_str(o.value) for o in o2])
+            chk.ob("R4 defaults", "R4|%s|serde-defaults" % tname, got == want, where(b), "value used for a missing member: %s (CTAP: %s)" % (got, want))
 
     # ---------------- R6
     classes = {}
@@ -327,7 +326,7 @@ def run(chk):
     chk.floor("R1", 7)
     chk.floor("R2", 6)
     chk.floor("R3", 18)
-    chk.floor("R4", 3)
+    chk.floor("R4", 4)
     chk.floor("R5", 20)
     chk.floor("R6", 14)
     chk.floor("R7", 3)
